@@ -98,6 +98,44 @@ func Tier(arg string) string {
 	return t
 }
 
+// ArgTier returns the tier given as first command-line argument.
+func ArgTier() string {
+	if len(os.Args) > 1 {
+		return os.Args[1]
+	}
+	return ""
+}
+
+// ArgRest returns the arguments after the tier.
+func ArgRest() []string {
+	if len(os.Args) > 2 {
+		return os.Args[2:]
+	}
+	return nil
+}
+
+// RepoDir is the repository under test.
+func RepoDir() string {
+	if r := os.Getenv("VERIF_REPO"); r != "" {
+		return r
+	}
+	return "/repo"
+}
+
+// ScratchDir is the per-run scratch directory created by ./check (removed by
+// it on exit). Falls back to a fresh temp dir under /var/tmp.
+func ScratchDir() string {
+	if s := os.Getenv("VERIF_SCRATCH_DIR"); s != "" {
+		return s
+	}
+	d, err := os.MkdirTemp("/var/tmp", "verif-adhoc-")
+	if err != nil {
+		return os.TempDir()
+	}
+	os.Setenv("VERIF_SCRATCH_DIR", d)
+	return d
+}
+
 // Seed returns VERIF_SEED (default 1).
 func Seed() int64 {
 	s := os.Getenv("VERIF_SEED")
